@@ -159,6 +159,8 @@ def real_headers(rng, names, edges, funcs_only, force_hidden=False):
     acyclic = order is not None
     classes = {u: ["%s_K0" % names[u].capitalize()] for u in range(k)}
     hidden = {u: [] for u in range(k)}       # classes without published members, which other libraries may derive from as well
+    pub_lib = {"%s_K0" % names[u].capitalize(): u for u in range(k)}   # class name -> library of its nearest published ancestor-or-self
+    intent = set()                           # (u, v): library u has a class deriving from / a typedef of a published class of library v
     files = {}
     for u in (order if acyclic else range(k)):
         U = names[u].capitalize()
@@ -172,6 +174,7 @@ def real_headers(rng, names, edges, funcs_only, force_hidden=False):
             out += ["__begin_publish", "int %s_only_function(int a);" % names[u], "__end_publish"]
         else:
             out += ["%s %s_K0 {" % (rng.choice(["class", "class", "struct"]), U), "__published:", "  %s_K0();" % U, "  int get_%s() const;" % names[u]]
+            pub_lib["%s_K0" % U] = u
             if rng.chance(1, 2):
                 out += ["  int get_num_parts() const;", "  int get_part(int n) const;", "  __make_seq(get_parts, get_num_parts, get_part);"]
             out.append("};")
@@ -189,12 +192,20 @@ def real_headers(rng, names, edges, funcs_only, force_hidden=False):
                     if force_hidden or rng.chance(1, 2):
                         # the inheritance goes through an intermediate class that publishes nothing
                         out += ["class %s_H%d : public %s {" % (U, n, base), "public:", "  int hidden_%d();" % n, "};"]
+                        pub_lib["%s_H%d" % (U, n)] = pub_lib[base]
                         base = "%s_H%d" % (U, n)
                         hidden[u].append(base)
-                    out += ["%s %s_D%d : public %s {" % (rng.choice(["class", "struct", "struct"]), U, n, base), "__published:", "  %s_D%d();" % (U, n), "  int d%d() const;" % n, "};"]
+                    kw = rng.choice(["class", "struct", "struct"])
+                    # "struct D : B" inherits publicly whatever B is; the access specifier is left out for some of them
+                    acc = "" if (kw == "struct" and rng.chance(1, 3)) else "public "
+                    out += ["%s %s_D%d : %s%s {" % (kw, U, n, acc, base), "__published:", "  %s_D%d();" % (U, n), "  int d%d() const;" % n, "};"]
                     classes[u].append("%s_D%d" % (U, n))
+                    pub_lib["%s_D%d" % (U, n)] = u
+                    if pub_lib[base] != u:
+                        intent.add((u, pub_lib[base]))
                 if h in ("typedef", "both"):
                     out.append("typedef %s %s_T%d;" % (rng.choice(classes[v]) if acyclic else classes[v][0], U, n))
+                    intent.add((u, v))
                     if rng.chance(1, 2):
                         # a second level, and a use in a published signature: that is what makes interrogate record the
                         # typedef, and the generated library code then adds it to the module as a name of the other library's class
@@ -206,6 +217,8 @@ def real_headers(rng, names, edges, funcs_only, force_hidden=False):
             out += ["__begin_publish", "int %s_function(int a);" % names[u]] + ["%s *use_%s(int a);" % (t, t.lower()) for t in used] + ["__end_publish"]
         out.append("#endif")
         files["%s/%s.h" % (names[u], names[u])] = "\n".join(out) + "\n"
+    global LAST_INTENT
+    LAST_INTENT = intent
     return files
 
 
@@ -269,6 +282,7 @@ def synth_dbs(rng, names, edges, funcs_only):
 
 # ---------------------------------------------------------------- plans
 
+LAST_INTENT = set()
 KINDS = ["chain", "dag", "dag", "diamond", "forest", "cycle2", "cycleN", "cycle-out", "sccs", "hidden-chain"]
 
 
@@ -500,6 +514,16 @@ def execute(plan):
     if not harness_faults:
         libs, medges = model_graph(dbs)
         stats["edges"] = len(medges)
+        if plan["variant"] == "real":
+            # what the headers say: every edge of the generated graph is a public derivation or a typedef used in a published
+            # signature.  The ordering oracle takes its edges from the database files; an edge the producer failed to
+            # record would make it blind, so it is checked here
+            for (a, b) in sorted(LAST_INTENT):
+                if names[a] in libs and names[b] in libs and (names[a], names[b]) not in medges:
+                    violations.append({"property": "C16", "class": "edge-not-recorded", "key": {"kind": "dependency-missing-from-databases"},
+                                       "msg": "the headers make %s depend on %s, but the databases interrogate wrote do not say so (model edges %s)" %
+                                              (names[a], names[b], sorted(medges))})
+                    break
         comp = sccs(libs, medges)
         cyclic = len(set(comp.values())) < len(libs)
         stats["cyclic"] = 1 if cyclic else 0
